@@ -111,7 +111,8 @@ def main():
                 res[p] = run_check(p, root, a.tier)
                 print("%-28s %s fired=%s rc=%d %.0fs %s" % (mut["id"], p, res[p]["fired"], res[p]["rc"], res[p]["wall_s"],
                                                           (res[p]["first"] or [res[p]["tail"]])[0][:150]), flush=True)
-            results[mut["id"]] = {"desc": mut["desc"], "file": mut.get("file", mut.get("revert", mut.get("patch"))), "results": res}
+            results[mut["id"]] = {"desc": mut["desc"], "file": mut.get("file", mut.get("revert", mut.get("patch"))), "results": res,
+                                  "expect": mut.get("expect", "fire")}
         finally:
             h = jit_source_hash(root)
             shutil.rmtree(root, ignore_errors=True)
